@@ -3,12 +3,13 @@
 1. TLC, exhaustive: tla/lines/Lines.tla — chibicc's newline canonicalisation, splice removal
    with deferred newlines, line counting and #line deltas (Level I) give every probe the
    position Level A (physical line of the token in its own file, shifted only by #line) gives
-   it, for every file of <= MaxLen units over 19 unit kinds x {LF, CRLF, CR} x {terminated,
-   unterminated last line} -- up to exactly the two recorded deviations of the tree as it is
+   it, for every file of <= MaxLen units over 27 unit kinds (code, comments, splices, macros,
+   includes, #line, and #if 1 / #if 0 / #else / #endif groups around them) x {LF, CRLF, CR} x
+   {terminated, unterminated last line} -- up to exactly the two recorded deviations of the tree as it is
    (finding D16-line: a probe governed by a #line of its own file is one too high; finding
    D16-splice: probes on continuation lines).  Controls TLC must reject: a #line delta off by
-   two, the tree's delta under the strict invariant, continuation-line probes included; the
-   repaired design (Lines_repaired.cfg) must satisfy the strict invariant.
+   two, the tree's delta under the strict invariant, continuation-line probes included, a
+   read_line_marker that rejects #line inside an open conditional; the repaired design (Lines_repaired.cfg) must satisfy the strict invariant.
 2. Generate -> replay: every (sampled) scenario becomes a real main.c + headers; four
    observables of the tree under test are compared with Level A for every probe:
    __LINE__/__FILE__ in `chibicc -E`, the same printed by the compiled program, the
@@ -24,6 +25,7 @@ HDR_UNITS = {"h0.h": ["P"], "h2.h": ["B", "C", "P"], "g1.h": ["SN", "I0", "P"], 
              "mac.h": ["B", "DO"]}
 MKINDS = ("MB", "MC", "MK", "MT")      # one statement over several lines, a probe (call with a magic argument) on each
 EOL = {"LF": "\n", "CRLF": "\r\n", "CR": "\r"}
+GROUP = {"G1": "#if 1", "G0": "#if 0", "GE": "#else", "GX": "#endif"}      # conditional groups around the other units
 PROLOGUE = ["X", "D", "IM", "X"]
 EPILOGUE = ["X"]
 DEFINE = '#define M(t) printf("%s %d %s\\n", t, __LINE__, __FILE__)'
@@ -44,6 +46,8 @@ def unit_lines(k, tag, u, pos, broken=None):
     pid = "%s%s%d" % (tag, k, u)
     v = "v_%s_%d" % (re.sub(r"\W", "_", tag), u)
     b = broken == pid
+    if k in GROUP:
+        return [GROUP[k]]
     if k == "X":
         return [{"first": FIRST, "mid": "int main(void) { int r = 0;", "last": "return r & 0; }"}[pos]]
     q = ["qf(%d)" % magic(u, j) for j in range(3)]
@@ -83,9 +87,21 @@ def render(units, tag, eol, final, main=False, broken=None, pad=0, variant=0):
     return e.join(lines) + (e if final else ""), len(lines)
 
 
+def closers(body):
+    """#endif for every group the body leaves open (Closers in Lines.tla)"""
+    depth = 0
+    for k in body:
+        depth += 1 if k in ("G1", "G0") else -1 if k == "GX" else 0
+    return ["GX"] * depth
+
+
+def all_units(b):
+    return PROLOGUE + ["C"] * b.get("pad", 0) + b["body"] + closers(b["body"]) + EPILOGUE
+
+
 def materialise(b, d, broken=None):
     pad = b.get("pad", 0)
-    units = PROLOGUE + ["C"] * pad + b["body"] + EPILOGUE
+    units = all_units(b)
     txt, n = render(units, "m", b["eol"], b["final"], main=True, broken=broken, pad=pad, variant=b.get("variant", 0))
     if n != b["nphys"]:
         raise Infra("renderer and Lines.tla disagree on the number of physical lines (%d vs %d) for %s" % (n, b["nphys"], b["body"]))
@@ -133,7 +149,7 @@ def obs_run(cmd, d):
 
 
 def magic_ids(b):
-    units = PROLOGUE + ["C"] * b.get("pad", 0) + b["body"] + EPILOGUE
+    units = all_units(b)
     return {str(magic(u + 1, j)): "m%s%d%s" % (k, u + 1, "abc"[j]) for u, k in enumerate(units) if k in MKINDS for j in range(3)}
 
 
@@ -182,11 +198,24 @@ def has_line_directive(b, f):
     return any(k in ("L", "F") for k in b["body"]) if f == "main.c" else f == "hl.h"
 
 
+def reject_class(b):
+    """root-cause tag of a rejected file: a #line directive (of the main file or of hl.h) inside an open conditional group"""
+    depth = 0
+    for k in b["body"]:
+        if k in ("G1", "G0"):
+            depth += 1
+        elif k == "GX":
+            depth -= 1
+        elif k in ("L", "F", "IL") and depth > 0:
+            return ":line-directive-in-group"
+    return ""
+
+
 def classify(b, exp, got):
     """compare probe lists; returns list of (sig suffix, detail)"""
     out = []
     if got is None:
-        return [("rejected", "")]
+        return [("rejected" + reject_class(b), "")]
     if [e[0] for e in exp] != [g[0] for g in got]:
         return [("probe-set", "expected probes %s got %s" % ([e[0] for e in exp], [g[0] for g in got]))]
     for e, g in zip(exp, got):
@@ -294,6 +323,7 @@ def run(ctx):
                                workers=5, timeout=3000, heap="6g") for e in ("LF", "CRLF", "CR")]
         c1 = pool.submit(ctx.tlc, "lines", "Lines", ctx.cfg("lines", "Lines_mc.cfg", MaxLen=2, LineOff=2), workers=1, count=False)
         c3 = pool.submit(ctx.tlc, "lines", "Lines", ctx.cfg("lines", "Lines_mc.cfg", MaxLen=2, RecordedLineDev=0), workers=1, count=False)
+        c4 = pool.submit(ctx.tlc, "lines", "Lines", ctx.cfg("lines", "Lines_mc.cfg", MaxLen=2, LineInGroupFix=False), workers=1, count=False)
         rep = pool.submit(ctx.tlc_expect_ok, "lines", "Lines", ctx.cfg("lines", "Lines_repaired.cfg", MaxLen=2),
                           "the repaired design (#line delta = n - line - 1) does not give Level A positions", workers=1)
         c2cfg = ctx.cfg("lines", "Lines_mc.cfg", MaxLen=2)
@@ -315,7 +345,7 @@ def run(ctx):
         behs.sort(key=lambda b: json.dumps(b, sort_keys=True))
         ctx.phase("gen done")
         b = behs[len(behs) // 2]
-        ctx.sample(dict(kind="file", units=PROLOGUE + b["body"] + EPILOGUE, line_ending=b["eol"], last_line_terminated=b["final"],
+        ctx.sample(dict(kind="file", units=all_units(b), line_ending=b["eol"], last_line_terminated=b["final"],
                         expected_probes=b["exp"]))
         replay_lines(ctx, tree, behs, full_every=3 if q else 2)
         ctx.phase("replay done")
@@ -342,11 +372,13 @@ def run(ctx):
             raise Infra("sensitivity control failed: TLC accepts the tree's #line delta under the strict invariant")
         if c2.result().ok:
             raise Infra("sensitivity control failed: TLC accepts continuation-line probes (SameAll)")
+        if c4.result().ok:
+            raise Infra("sensitivity control failed: TLC accepts a read_line_marker that rejects #line inside an open conditional")
     ctx.assumptions += ["Level I (Lines.tla) is a hand transcription of tokenize.c/preprocess.c at the granularity of abstract characters",
                         "a lone CR is a line terminator (chibicc's documented choice; gcc differs, so CR files have no tie-break oracle)",
                         "diagnostics and .loc records are judged only in files without #line"]
     return ctx.finish(
-        rule="case = one file (prologue + <=3 units over 24 kinds + epilogue, or <=2 units behind 8 padding lines ending at the 4096-byte read boundaries) x line ending x terminated/unterminated, with its four headers; every probe in it is compared on up to four observables (-E, compiled program, diagnostic prefix, .loc); non-trivial = at least one probe; distinct = distinct (unit sequence, line ending, termination)",
+        rule="case = one file (prologue + <=3 units over 27 kinds (conditional groups included; groups left open are closed) + epilogue, or <=2 units behind 8 padding lines ending at the 4096-byte read boundaries) x line ending x terminated/unterminated, with its four headers; every probe in it is compared on up to four observables (-E, compiled program, diagnostic prefix, .loc); non-trivial = at least one probe; distinct = distinct (unit sequence, line ending, termination)",
         exhaustive=not q, extra=dict(scenarios_replayed=len(behs), long_file_scenarios_replayed=len(longs)))
 
 
